@@ -259,6 +259,16 @@ def run_case(ctx, case):
                 g2 = copy.deepcopy(g)
                 check_graph(ctx, r, g2.instance, name, g2, wn, we, "deep copy of a built graph")
                 ctx.count("deep_copied_graphs_checked")
+            if case["seed"] % 80 == 1 and name == "disjunctive" and r.num_ops <= 12 and not r.flexible:
+                # the library's own graph plot is handed the graph (all ways of drawing the
+                # disjunctive edges): the graph is the same afterwards
+                import matplotlib.pyplot as plt
+                from job_shop_lib.visualization import plot_disjunctive_graph
+                for mode in (True, "single_edge", False):
+                    fig, _ = plot_disjunctive_graph(g, draw_disjunctive_edges=mode)
+                    plt.close(fig)
+                check_graph(ctx, r, instance, name, g, wn, we, "after plot_disjunctive_graph")
+                ctx.count("graphs_rechecked_after_plotting")
             built.append((r, instance, name, g, wn, we))
             ctx.count("builder_checks")
             ctx.distinct.add(f"{name}:{hash(gen.fingerprint(inst))}") if gen.competing(inst) else None
